@@ -662,12 +662,21 @@ class PipeOps(FullOps):
             desc = [self.shape_arg(a) for a in shape] if not (len(args) == 1 and isinstance(args[0], ListV) and args[0].items is None) else ["<shape>"]
             if len(args) == 1 and isinstance(args[0], ListV) and args[0].items is None:
                 desc = [self.shape_arg(args[0])]
-            self.pev("reshape", node, how=name, shape=desc, layout=[repr(l) for l in t.layout], origin=sorted(t.origin))
+            n_numel = sum(1 for a in shape if isinstance(a, TV) and a.note in ("numel", "nelement") and self.const_int(a) is None)
+            n_lit = sum(1 for a in shape if self.const_int(a) == -1)
+            self.pev("reshape", node, how=name, shape=desc, layout=[repr(l) for l in t.layout], origin=sorted(t.origin), inferred_beside_numel=bool(n_numel and n_lit))
+            if len(shape) == 2 and self.const_int(shape[0]) == -1 and self.const_int(shape[1]) is None and not (isinstance(shape[1], TV) and shape[1].note in ("numel", "nelement")) \
+                    and len(t.axes) == 1 and t.layout:
+                # a vector of blocks laid end to end, viewed as (-1, n): column c of the view holds the entries c, c + n, c + 2n, ... of the vector
+                return t.but(layout=(), axes=(Q, Q), note="strided-columns:" + norm_text(node)[:80])
             keep = t.layout if desc and desc[0] in ("rows", "-1") and len(desc) <= 2 else ()
             axes = ("R", Q) if desc and desc[0] == "rows" else (Q,)
             if desc == ["-1"]:
                 keep = ()
             return t.but(layout=keep, axes=axes if t.axes[0] == "R" and desc and desc[0] == "rows" else ((Q,) if desc == ["-1"] else t.axes))
+        if name == "unbind" and t.note.startswith("strided-columns:") and self.const_int(kwargs.get("dim", args[0] if args else Const(0))) in (1, -1):
+            self.pev("reshape", node, how="view+unbind", shape=["-1", "<n>"], layout=[], origin=sorted(t.origin), interleaved=True)
+            return ListV(items=None, elem=opaque(t.origin, dtype=t.dtype), kind="tuple")
         if name == "repeat" and len(args) == 2 and self.const_int(args[1]) == 1 and len(t.axes) == 1:
             # v.repeat(n, 1): n rows, each a copy of the vector — the layout of the vector becomes the layout of the columns
             return t.but(axes=("K", t.axes[0]), layout=tuple((l[0] + 1, l[1], l[2]) for l in t.layout), alias=False)
@@ -746,6 +755,17 @@ class PipeOps(FullOps):
             self.pev("grad_write", node, aug=True, target=sorted(t.origin), target_note="key", value=repr(args[0]) if args else "", fresh=True,
                      value_origin=sorted(vt.origin) if vt is not None else None, value_is_none=False, maybe_copy=t.note == "grad-field-maybe-copy")
             return t
+        if name == "chunk" and t.axes and t.axes[0] in ("R", "K") and self.const_int(kwargs.get("dim", args[1] if len(args) > 1 else Const(0))) == 0:
+            # chunk(n) along the rows: n is the NUMBER of blocks asked for — each holds ceil(rows / n) rows, the last one the rest
+            n_ = args[0] if args else kwargs.get("chunks")
+            nc = self.const_int(n_) if n_ is not None else None
+            rows = self.rows_of(t)
+            if self.inst is not None and nc is not None and nc > 0 and rows is not None:
+                rr = self.span_rows(rows)
+                sz = -(-len(rr) // nc)
+                return ListV(items=tuple(t.but(alias=True, rowspan=self.span_norm(rr[i:i + sz])) for i in range(0, len(rr), sz)), kind="tuple")
+            self.pev("row_split", node, size=f"ceil(rows / {n_!r})", size_poly=None, tensor_origin=sorted(t.origin), by_count=True)
+            return ListV(items=None, elem=t.but(alias=True, rowspan="?" if self.inst is not None else None), kind="tuple", order=(("row-blocks",), "same"))
         if name in ("split", "tensor_split", "split_with_sizes"):
             sizes = args[0] if args else kwargs.get("split_size_or_sections", kwargs.get("split_sizes", kwargs.get("split_size")))
             dim = kwargs.get("dim", args[1] if len(args) > 1 else None)
